@@ -521,4 +521,169 @@ theorem MarkBase.lookupIn_full {A : Type} (t : MarkBase A)
             have : row[cls]? = none := List.getElem?_eq_none (by omega)
             simp [h, this]
 
+/-! ## the PairPos format 2 split-point heuristic -/
+
+theorem ppf2Step_points (e : Ppf2Est) (recSize cd2Size : Nat) (st : Ppf2Acc) (idx : Nat) :
+    (ppf2Step e recSize cd2Size st idx).points = st.points ∨
+    (ppf2Step e recSize cd2Size st idx).points = idx :: st.points := by
+  unfold ppf2Step
+  simp only [apply_ite Ppf2Acc.points]
+  split <;> simp
+
+theorem ppf2_fold_inv (e : Ppf2Est) (recSize cd2Size : Nat) : ∀ (n : Nat),
+    let st := (List.range n).foldl (ppf2Step e recSize cd2Size) ⟨16, 4, 4, []⟩
+    st.points.Pairwise (· > ·) ∧ ∀ p ∈ st.points, p < n := by
+  intro n
+  induction n with
+  | zero => exact ⟨List.Pairwise.nil, fun p hp => by cases hp⟩
+  | succ k ih =>
+    simp only [List.range_succ, List.foldl_append, List.foldl_cons, List.foldl_nil]
+    simp only at ih
+    generalize (List.range k).foldl (ppf2Step e recSize cd2Size) ⟨16, 4, 4, []⟩ = st at ih
+    rcases ppf2Step_points e recSize cd2Size st k with h | h <;> rw [h]
+    · exact ⟨ih.1, fun p hp => by have := ih.2 p hp; omega⟩
+    · refine ⟨List.pairwise_cons.mpr ⟨fun a ha => ih.2 a ha, ih.1⟩, ?_⟩
+      intro p hp
+      rcases List.mem_cons.mp hp with rfl | hp
+      · omega
+      · have := ih.2 p hp; omega
+
+/-! ## `ClassDefBuilder` -/
+
+theorem insertClass_perm (c : List Nat) (xs : List (List Nat)) : (insertClass c xs).Perm (c :: xs) := by
+  induction xs with
+  | nil => exact List.Perm.refl _
+  | cons x xs ih =>
+    unfold insertClass
+    by_cases h : classKeyLe c x = true
+    · simp [h]
+    · simp only [h, Bool.false_eq_true, ↓reduceIte]
+      exact (List.Perm.cons x ih).trans (List.Perm.swap c x xs)
+
+theorem sortClasses_perm (cs : List (List Nat)) : (sortClasses cs).Perm cs := by
+  induction cs with
+  | nil => exact List.Perm.refl _
+  | cons c cs ih =>
+    show (insertClass c (sortClasses cs)).Perm (c :: cs)
+    exact (insertClass_perm c _).trans (List.Perm.cons c ih)
+
+/-- two classes share no glyph -/
+def ClassesDisjoint (a c : List Nat) : Prop := ∀ g, g ∈ a → g ∉ c
+
+theorem assignedClass_none {ps : List (Nat × Nat)} {g : Nat} (h : ∀ p ∈ ps, p.1 ≠ g) :
+    assignedClass ps g = 0 := by
+  unfold assignedClass
+  have : (ps.filter (fun p => p.2 != 0)).reverse.find? (fun p => p.1 == g) = none := by
+    rw [List.find?_eq_none]
+    intro p hp
+    have hp' : p ∈ ps := (List.mem_filter.mp (List.mem_reverse.mp hp)).1
+    simp [h p hp']
+  rw [this]
+
+theorem mem_mapping {sorted : List (List Nat)} {addOne : Nat} {p : List Nat × Nat} :
+    p ∈ (List.range sorted.length).zipWith (fun i cls => (cls, i + addOne)) sorted ↔
+      ∃ i, ∃ h : i < sorted.length, p = (sorted[i], i + addOne) := by
+  constructor
+  · intro hp
+    obtain ⟨i, hi, he⟩ := List.getElem_of_mem hp
+    have hi' : i < sorted.length := by simpa using hi
+    refine ⟨i, hi', ?_⟩
+    rw [← he, List.getElem_zipWith]
+    simp
+  · rintro ⟨i, hi, rfl⟩
+    have hl : i < ((List.range sorted.length).zipWith (fun i cls => (cls, i + addOne)) sorted).length := by
+      simpa using hi
+    have := List.getElem_mem hl
+    rw [List.getElem_zipWith] at this
+    simpa using this
+
+/-- `ClassDefBuilder::build_with_mapping`: every glyph of a class reads back as that class' id,
+every other glyph as 0, and the ids are `add_one, add_one + 1, …` in sorted-class order. -/
+theorem buildWithMapping_get (b : ClassDefBuilder)
+    (hdis : b.classes.Pairwise ClassesDisjoint) :
+    (∀ p ∈ b.buildWithMapping.2, ∀ g ∈ p.1, b.buildWithMapping.1.get g = p.2) ∧
+    (∀ g, (∀ c ∈ b.classes, g ∉ c) → b.buildWithMapping.1.get g = 0) ∧
+    (b.buildWithMapping.2.map (·.1)).Perm b.classes ∧
+    b.buildWithMapping.2.map (·.2) =
+      List.range' (if b.useClass0 then 0 else 1) b.classes.length := by
+  have hperm := sortClasses_perm b.classes
+  have hsym : ∀ {x y : List Nat}, ClassesDisjoint x y → ClassesDisjoint y x :=
+    fun h g hg hx => h g hx hg
+  have hsd : (sortClasses b.classes).Pairwise ClassesDisjoint :=
+    (List.Perm.pairwise_iff hsym hperm).mpr hdis
+  simp only [ClassDefBuilder.buildWithMapping]
+  generalize hso : sortClasses b.classes = sorted at hperm hsd
+  generalize hao : (if b.useClass0 then 0 else 1) = addOne
+  have huniq : ∀ i j (hi : i < sorted.length) (hj : j < sorted.length) g,
+      g ∈ sorted[i] → g ∈ sorted[j] → i = j := by
+    intro i j hi hj g h1 h2
+    have hp := List.pairwise_iff_getElem.mp hsd
+    rcases Nat.lt_trichotomy i j with h | h | h
+    · exact absurd h2 (hp i j hi hj h g h1)
+    · exact h
+    · exact absurd h1 (hp j i hj hi h g h2)
+  refine ⟨?_, ?_, ?_, ?_⟩
+  · intro p hp g hg
+    obtain ⟨i, hi, rfl⟩ := mem_mapping.mp hp
+    rw [buildClassDef_get]
+    apply assignedClass_const
+    · intro q hq hqg
+      obtain ⟨p', hp', hq'⟩ := List.mem_flatMap.mp hq
+      obtain ⟨j, hj, rfl⟩ := mem_mapping.mp hp'
+      obtain ⟨g', hg', rfl⟩ := List.mem_map.mp hq'
+      simp only at hqg hg' ⊢
+      subst hqg
+      have := huniq i j hi hj g' hg hg'
+      omega
+    · refine ⟨(g, i + addOne), List.mem_flatMap.mpr ⟨_, hp, ?_⟩, rfl⟩
+      exact List.mem_map.mpr ⟨g, hg, rfl⟩
+  · intro g hno
+    rw [buildClassDef_get]
+    apply assignedClass_none
+    intro q hq hqg
+    obtain ⟨p', hp', hq'⟩ := List.mem_flatMap.mp hq
+    obtain ⟨j, hj, rfl⟩ := mem_mapping.mp hp'
+    obtain ⟨g', hg', rfl⟩ := List.mem_map.mp hq'
+    simp only at hqg hg'
+    subst hqg
+    exact hno _ (hperm.mem_iff.mp (List.getElem_mem hj)) hg'
+  · have : ((List.range sorted.length).zipWith (fun i cls => (cls, i + addOne)) sorted).map (·.1) = sorted := by
+      apply List.ext_getElem
+      · simp
+      · intro i h1 h2
+        simp [List.getElem_zipWith]
+    rw [this]; exact hperm
+  · have hlen : b.classes.length = sorted.length := hperm.length_eq.symm
+    rw [hlen]
+    apply List.ext_getElem
+    · simp
+    · intro i h1 h2
+      simp [List.getElem_zipWith, List.getElem_range']
+      omega
+
+/-- `ClassDefBuilder::checked_add` keeps the classes pairwise disjoint -/
+theorem checkedAdd_disjoint (b : ClassDefBuilder) (cls : List Nat)
+    (hdis : b.classes.Pairwise ClassesDisjoint) :
+    (b.checkedAdd cls).1.classes.Pairwise ClassesDisjoint := by
+  unfold ClassDefBuilder.checkedAdd
+  by_cases hc : b.canAdd cls = true
+  · simp only [hc, ↓reduceIte]
+    by_cases hin : b.classes.contains cls = true
+    · simp only [hin, ↓reduceIte]; exact hdis
+    · simp only [hin, Bool.false_eq_true, ↓reduceIte]
+      rw [List.pairwise_append]
+      refine ⟨hdis, List.pairwise_singleton _ _, ?_⟩
+      intro a ha c hcm
+      simp at hcm; subst hcm
+      intro g hga hgc
+      unfold ClassDefBuilder.canAdd at hc
+      simp only [hin, Bool.false_or, List.all_eq_true] at hc
+      have := hc g hgc
+      simp only [ClassDefBuilder.allGlyphsContains, Bool.not_eq_eq_eq_not, Bool.not_true,
+        List.any_eq_false] at this
+      have := this a ha
+      simp [hga] at this
+  · simp only [hc, Bool.false_eq_true, ↓reduceIte]; exact hdis
+
+
 end FontVerif.Layout
